@@ -430,15 +430,16 @@ func (s *Sim) FreeCount() int {
 // PoolGet replaces (*sync.Pool).Get in package validate.
 func PoolGet(p *sync.Pool) any {
 	c := curCtx()
-	s := installed()
-	if c == nil || s == nil {
-		return p.Get()
-	}
-	if ctxOracle(c) {
+	if c != nil && ctxOracle(c) {
+		// oracle mode never touches any pool, simulated or real
 		if p.New == nil {
 			return nil
 		}
 		return p.New()
+	}
+	s := installed()
+	if c == nil || s == nil {
+		return p.Get()
 	}
 	if t := runningTask(); t != nil {
 		return t.poolGet(p)
@@ -458,12 +459,12 @@ func PoolGet(p *sync.Pool) any {
 // PoolPut replaces (*sync.Pool).Put in package validate.
 func PoolPut(p *sync.Pool, x any) {
 	c := curCtx()
+	if c != nil && ctxOracle(c) {
+		return
+	}
 	s := installed()
 	if c == nil || s == nil {
 		p.Put(x)
-		return
-	}
-	if ctxOracle(c) {
 		return
 	}
 	if t := runningTask(); t != nil {
